@@ -74,6 +74,63 @@ def mutable_evidence(fi: FuncInfo, param: str) -> Optional[str]:
     return None
 
 
+def is_internal(fi: FuncInfo) -> bool:
+    n = fi.name
+    return n.startswith("_") and not (n.startswith("__") and n.endswith("__"))
+
+
+def actual_origin(prog: Program, funcs: List[FuncInfo], origins: Dict[str, Origins], fi: FuncInfo, param: str,
+                  depth: int, seen: Set[Tuple[str, str]]) -> Tuple[str, str]:
+    """Who owns the object bound to `param` of `fi`?  Public entry points receive the user's object; an internal
+    helper (leading underscore) receives whatever its call sites pass."""
+    if not is_internal(fi):
+        return "VIOLATED", f"`{param}` of the public {fi.name} is the caller's object"
+    if (fi.qualname, param) in seen or depth > 3:
+        return "HOLDS", "recursive pass-through"
+    seen = seen | {(fi.qualname, param)}
+    a = fi.node.args
+    pos = [p.arg for p in list(a.posonlyargs) + list(a.args)]
+    is_method = fi.cls is not None
+    sites = 0
+    worst = ("HOLDS", f"every call site of {fi.name} passes a fresh object for `{param}`")
+    for g in funcs:
+        og = origins.get(g.qualname)
+        if og is None:
+            continue
+        par = None
+        for n in ast.walk(g.node):
+            if not isinstance(n, ast.Call):
+                continue
+            r = resolve_call(prog, g, n)
+            if not (isinstance(r, FuncInfo) and r.qualname == fi.qualname):
+                continue
+            sites += 1
+            if par is None:
+                par = parents(g.node)
+            actual = None
+            for k in n.keywords:
+                if k.arg == param:
+                    actual = k.value
+            if actual is None and param in pos:
+                idx = pos.index(param) - (1 if is_method and isinstance(n.func, ast.Attribute) else 0)
+                if 0 <= idx < len(n.args):
+                    actual = n.args[idx]
+            if actual is None:
+                continue            # default value: fresh per definition site / constant
+            org = og.origin(actual, og.env_for(n, par))
+            if FROZEN in org or GLOBAL in org:
+                return "VIOLATED", f"{g.name} passes schema state / a module object as `{param}` of {fi.name}"
+            for c in (x for x in org if x.startswith("CALLER:")):
+                v, why = actual_origin(prog, funcs, origins, g, c.split(":", 1)[1], depth + 1, seen)
+                if v != "HOLDS":
+                    worst = (v, why)
+            if UNKNOWN in org and not (org - {UNKNOWN}):
+                worst = ("UNDECIDED", f"origin of the object {g.name} passes as `{param}` is unknown") if worst[0] == "HOLDS" else worst
+    if sites == 0:
+        return "VIOLATED", f"no internal call site of {fi.name} found: `{param}` is the caller's object"
+    return worst
+
+
 def narrowed_immutable(node: ast.AST, param: str, par: Dict[ast.AST, ast.AST]) -> bool:
     """Is `node` inside the true-branch of `if isinstance(param, K)` with K free of mutable containers?"""
     child: ast.AST = node
@@ -139,9 +196,17 @@ def check(run: Run, prog: Program, model: Model, tier: str) -> None:
                 continue
             callers = sorted(x for x in org if x.startswith("CALLER:"))
             if callers:
-                run.violated("NO-WRITE", construct, w.site,
-                             f"in-place write to a value passed in by the caller ({', '.join(callers)})",
-                             witness="the argument object is mutated by a public operation")
+                verdicts = [actual_origin(prog, funcs, origins, fi, c.split(":", 1)[1], 0, set()) for c in callers]
+                worst = "VIOLATED" if "VIOLATED" in [v for v, _ in verdicts] else ("UNDECIDED" if "UNDECIDED" in [v for v, _ in verdicts] else "HOLDS")
+                why = "; ".join(w_ for _, w_ in verdicts)
+                if worst == "VIOLATED":
+                    run.violated("NO-WRITE", construct, w.site,
+                                 f"in-place write to a value passed in by the caller ({', '.join(callers)}): {why}",
+                                 witness="the argument object is mutated by a public operation")
+                elif worst == "UNDECIDED":
+                    run.undecided("NO-WRITE", construct, w.site, why)
+                else:
+                    run.holds("NO-WRITE", construct, w.site, f"parameter of an internal helper: {why}", nontrivial=True)
                 continue
             selfs = sorted(x for x in org if x.startswith("SELF"))
             if selfs:
